@@ -96,17 +96,15 @@ impl SchedulerCore {
     /// If a queue is idle and has pending jobs, places it in the schedule
     ///
     pub (super) fn reschedule_queue(&self, queue: &Arc<JobQueue>, core: Arc<SchedulerCore>) {
+        let to_notify;
         let reschedule = {
             let mut core = queue.core.lock().expect("JobQueue core lock");
 
-            // Signal any waiting condition variables
-            core.wake_blocked.iter_mut()
-                .for_each(|cond_var| {
-                    if let Some(cond_var) = cond_var.upgrade() {
-                        cond_var.notify_one();
-                    }
-                });
-            core.wake_blocked.retain(|cond_var| cond_var.strong_count() > 0);
+            // Find the condition variables of any threads blocked in sync (they're signalled once the queue lock is released)
+            core.wake_blocked.retain(|(cond_var, _ready)| cond_var.strong_count() > 0);
+            to_notify = core.wake_blocked.iter()
+                .filter_map(|(cond_var, ready)| cond_var.upgrade().map(|cond_var| (cond_var, Arc::clone(ready))))
+                .collect::<Vec<_>>();
 
             match core.state {
                 QueueState::Idle => {
@@ -133,6 +131,13 @@ impl SchedulerCore {
                 }
             }
         };
+
+        // Signal the blocked threads. A thread holds its 'ready' lock from deciding that it can't run the queue itself until it
+        // starts waiting, so taking that lock here means the signal can't be lost in between
+        for (cond_var, ready) in to_notify {
+            let _ready = ready.lock().expect("Background job ready lock");
+            cond_var.notify_one();
+        }
 
         if reschedule {
             self.schedule.lock().expect("Schedule lock").push_back(queue.clone());
